@@ -14,7 +14,9 @@ in-process, on
   * the malformed stream: trailing text, doubled commas, stray and missing parentheses, missing
     operands, `[A-z]` oddities (`L_A`, `[\\]`), mnemonic glued to the operand, quote oddities, and
     random edits of valid statements;
-  * `Statement.match` itself (`stm`) on arbitrary, NOT whitespace-normalised strings.
+  * `Statement.match` itself (`stm`) on arbitrary, NOT whitespace-normalised strings;
+  * the documented token syntax: `Spec.Asm.parse` of the Lean Spec (`spp`) against its Python transcription
+    `asmcommon.spec_parse` (the soundness oracle below) on every text of every stream.
 A disagreement model/real is a broken tie (kind='tie').
 
 SEPARATELY the PROPERTY is evaluated on the real assembler with an oracle that does not use the model
@@ -28,7 +30,9 @@ documented token syntax):
                SyntaxError / OverflowError / KeyError;
   soundness    for EVERY input of every stream: bytes come back only if the token sequence of the text
                denotes (mnemonic, shape, operand word), the word has a value (AddressParser.number of
-               the real parser; 'c' literal) and the bytes are a documented encoding of that statement;
+               the real parser; 'c' literal) and the bytes are a documented encoding of that statement
+               (PROVED of the model for every text: theorem `asm_sound`; here it is evaluated on the real
+               assembler);
   either       missing closing quote in #'c, CPython int() leniencies ($1_0), a mnemonic glued to '(':
                refusal is fine, bytes must satisfy the soundness rule.
 A deviation of the real code is a finding with a replay.
@@ -57,6 +61,8 @@ EXPECTED_THEOREMS = [
     'Py65.Props.C07.asm_text', 'Py65.Props.C07.asm_text_imm', 'Py65.Props.C07.asm_text_char',
     'Py65.Props.C07.asm_text_acc', 'Py65.Props.C07.asm_text_none', 'Py65.Props.C07.asm_ws_case',
     'Py65.Props.C07.asm_total', 'Py65.Props.C07.asm_sound_partial', 'Py65.Props.C07.asm_spelling_hex',
+    'Py65.Props.C07.asm_sound', 'Py65.Props.C07.asm_sound_documented', 'Py65.Props.C07.asm_sound_label_paren',
+    'Py65.Props.C07.asm_sound_charlit_paren', 'Py65.Props.C07.asm_sound_newline',
 ] + ac.ASM_GEN_THEOREMS + ['Py65.Props.C07g.' + t for t in (
     'asm_core', 'asm_zp_order', 'asm_abs_form', 'asm_branch', 'asm_backend_sound', 'asm_text', 'asm_spelling_hex',
     'asm_text_imm', 'asm_text_char', 'asm_text_acc', 'asm_text_none', 'asm_ws_case', 'asm_total',
@@ -75,7 +81,8 @@ TRUSTED = ac.ASM_GEN_TRUSTED + [
     "CPython 3.12 `re` (Statement, the compiled templates), str.split/strip/upper/join, %-formatting and "
     'int(str, 16) are modelled for ASCII input, not verified',
     'Spec.Asm (documented encoding and token syntax, from Spec/Isa.lean) and its Python transcription in '
-    'harness/asmcommon.py (tables parsed from Spec/Isa.lean)',
+    'harness/asmcommon.py (tables parsed from Spec/Isa.lean; spec_parse compared with Spec.Asm.parse on every text '
+    'of every run through the `spp` protocol line)',
     'Py65.Model.AddrParser for the operand values (C15)',
 ]
 ASSUMPTIONS = [
@@ -83,15 +90,19 @@ ASSUMPTIONS = [
     'assume about Python is the library behaviour listed under trusted_base (regex engine, str methods, formatting, '
     'int(), list.index, AddressParser.number) as modelled by lean/Py65/Model/AsmRt.lean, and that Assembler instances '
     'hold no state beyond the mpu, the parser and the template list (the translator refuses any other attribute)',
-    'statement text over printable ASCII + tab (blanks are space and tab); other white space that '
-    'str.split() accepts and non-ASCII text are outside the claim',
+    'statement text over ASCII; white space is what str.split() splits at in ASCII (space, \\t \\n \\v \\f \\r, '
+    '\\x1c..\\x1f) -- the generated streams use space and tab; non-ASCII text is outside the claim (the model '
+    'upper-cases and splits ASCII only; e.g. the real assembler accepts U+017F "long s" for S because str.upper() '
+    'maps it)',
     'label tables hold identifier-like names (letter or _ first, then letters, digits, _ .; not A/a) with '
-    'in-range values; radix is one of 16/10/8/2',
+    'in-range values; radix is one of 16/10/8/2.  asm_sound needs exactly: parser width = ADDR_WIDTH, in-range '
+    'label values, NO LABEL NAME CONTAINS "(" (theorem asm_sound_label_paren: with a label "a(b" the text '
+    '"LDA a(b" assembles although its tokens denote nothing)',
     'the assembly address pc is an int in [0, 2^ADDR_WIDTH)',
-    'asm_sound is proved as asm_sound_partial (every text: bytes only for an operand that normalize_and_split '
-    'turned into the canonical text of some (shape, value), and then exactly its documented encoding); that this '
-    '(opcode, shape, value) is the one the ORIGINAL text denotes under the token syntax is carried by the '
-    'correspondence and by the soundness oracle of this check (every generated input), see Props/C07.lean',
+    'asm_sound is proved in full for the model (every text): bytes come back only if Spec.Asm.parse of the ORIGINAL '
+    'text denotes (mnemonic, shape, word), the word has a value and the bytes are Spec.encode of that statement; the '
+    'Spec tokeniser was corrected for it in two places (white space = str.split() white space; a character literal '
+    "#'(' is one token), see Spec/Asm.lean and notes/asm-sound.md",
 ]
 
 DIG = '0123456789abcdefghijklmnopqrstuvwxyz'
@@ -303,6 +314,11 @@ MALFORMED_FIXED = [
     'LDA ($10,X),Y', 'LDA (($10))', 'LDA $10,X,Y', 'LDA $10,Y,X', 'LDA xX', 'LDA $10,xx', 'LDA $10 x', 'LDA $10 y',
 ]
 MUT_ALPHABET = "(),#$%+-'\" \tXYAxya0189FfGg_[]\\^`;:.*=&|<>!~@"
+# texts for the Spec.Asm.parse / spec_parse comparison beyond the streams: every white-space character, character
+# literals with delimiters and blanks as the quoted character, quotes elsewhere in a word
+SPP_FIXED = ["LDA\n$10", "LDA\x0b($10)\x0c,\rY", "LDA\x1c$10\x1d,\x1eX\x1f", "LDA #'('", "LDA #')'", "LDA #','", "LDA #' '",
+             "LDA #'\t'", 'LDA #"("', "LDA #'(',X", "LDA (#'('),Y", "LDA #'", "LDA #'(", "LDA #''(", "LDA x#'(", "LDA '#(",
+             "LDA #'()", "LDA #'(')", "lda #'a'", "#'(", "( #'( )", "LDA\x00$10", "LDA\x7f$10", "LDA\x85$10", "LDA\xa0$10"]
 
 
 def gen_malformed(rng, tier):
@@ -365,19 +381,10 @@ REFUSALS = ('syntax', 'overflow', 'key')
 def denoted(dev, pc, radix, labels, text):
     """The set of documented encodings of what the token sequence of `text` denotes ([] = must refuse),
     plus a short reason; the operand word is valued by the REAL AddressParser.number ('c' literals here).
-    Returns (docs, why, strict) -- strict=False marks a lenient reading (the 'either' zone)."""
+    This is the right-hand side of the Lean theorem `asm_sound` (Spec.Asm.parse, then `value`, then
+    Spec.encode / its absolute twin).  Returns (docs, why, strict) -- strict=False marks the lenient
+    readings of the 'either' zone (missing closing quote, a parenthesis as the quoted character)."""
     strict = True
-    quoted = None
-    for q in ("#'", '#"'):
-        i = text.find(q)
-        if i >= 0 and i + 2 < len(text) and text[i + 2] in '(), \t' and (quoted is None or i < quoted[0]):
-            quoted = (i, text[i + 2])
-    if quoted is not None:
-        # a delimiter or blank as the quoted character: the 'either' zone (DESIGN section 3 C07); read it as
-        # that character, the tokeniser must not split there
-        i, qc = quoted
-        text = text[:i + 2] + '\x00' + text[i + 3:]
-        strict = False
     p = ac.spec_parse(text)
     if p is None:
         return [], 'token sequence denotes no statement', True
@@ -386,14 +393,12 @@ def denoted(dev, pc, radix, labels, text):
         v = 0
     else:
         if shape == 'imm' and word[:1] in ('"', "'"):
-            if quoted is not None and word[1:2] == '\x00':
-                word = word[0] + quoted[1] + word[2:]
-            if len(word) == 3 and word[2] == word[0]:
-                v = ord(word[1])
-            elif len(word) == 2:
-                v, strict = ord(word[1]), False            # missing closing quote: either
-            else:
+            c = ac.spec_charlit(word)
+            if c is None:
                 return [], 'malformed character literal %r' % word, True
+            v = ord(c)
+            if len(word) == 2 or c in '(),':
+                strict = False
         else:
             try:
                 v = ac.assembler_for(dev, radix, labels)._address_parser.number(word)
@@ -511,6 +516,26 @@ def explore(ctx):
             if len(total['mism']) < 25:
                 total['mism'].append(dict(request=ac.stm_line(t), case=['stm', t], model=mo, real=re_, stream='stm'))
     ctx.note('stm: %d strings, %d disagreements, total %.1fs' % (len(texts), stm_bad, time.time() - t0))
+    # the documented token syntax: Lean Spec.Asm.parse vs the harness oracle spec_parse, on every text
+    ptexts = sorted(set(it['case'][4] for it in items) | set(texts) | set(SPP_FIXED))
+    ptexts = [t for t in ptexts if all(ord(c) < 256 for c in t)]
+    model = run_driver([ac.spp_line(t) for t in ptexts])
+    spp_bad = 0
+    for t, mo in zip(ptexts, model):
+        py = ac.spec_parse_str(t)
+        total['n'] += 1
+        total['dist']['spp'] = total['dist'].get('spp', 0) + 1
+        k = 'spp/' + py.split(' ')[0]
+        total['outcomes'][k] = total['outcomes'].get(k, 0) + 1
+        if mo == py:
+            total['agree'] += 1
+        else:
+            spp_bad += 1
+            if spp_bad <= 8:
+                ctx.broken.append(dict(kind='tie', what='Spec.Asm.parse (Lean) and asmcommon.spec_parse disagree on %r' % (t,),
+                                       detail='lean=%s python=%s' % (mo, py),
+                                       replay=dict(request=ac.spp_line(t), case=['spp', t], model=mo, real=py, stream='spp')))
+    ctx.note('spp: %d texts, %d disagreements, total %.1fs' % (len(ptexts), spp_bad, time.time() - t0))
     for m in total['mism'][:8]:
         ctx.broken.append(dict(kind='tie', what='model and real assembler disagree on %r' % (m['case'][-1],),
                                detail='model=%s real=%s stream=%s case=%r' % (m['model'], m['real'], m['stream'], m['case']),
@@ -545,6 +570,9 @@ def replay(ctx, path):
     c = rp['case']
     if c[0] == 'stm':
         ln, re_ = ac.stm_line(c[1]), ac.real_stm(c[1])
+        it = None
+    elif c[0] == 'spp':
+        ln, re_ = ac.spp_line(c[1]), ac.spec_parse_str(c[1])
         it = None
     else:
         case = (c[0], c[1], c[2], tuple(tuple(x) for x in c[3]), c[4])
